@@ -1,6 +1,7 @@
 package parameter
 
 import (
+	"bytes"
 	"flag"
 	"io"
 	"os"
@@ -46,7 +47,10 @@ func (pn *File) DisplayName() string {
 
 func (pn *File) ApplyMessage(msg []byte) (bool, error) {
 	pn.version++
-	pn.appliedProfile = msg
+
+	// Keep our own copy: the message belongs to the caller again once we
+	// return, and they're free to reuse the buffer for their next request
+	pn.appliedProfile = bytes.Clone(msg)
 	return true, nil
 }
 
